@@ -121,6 +121,11 @@ pub struct Mon {
     pub first_bad_call: usize,
     /// false once a decision could not be determined: later observations prove nothing
     pub reliable: bool,
+    /// native replay only: the uniform draw of each step (from a replica of the seeded generator,
+    /// consumed in the order index, move, acceptance); lets the monitor decide the probabilistic
+    /// region exactly.  Empty under Kani.
+    pub draws_n: usize,
+    pub draws: [f64; MAXC],
 }
 
 pub static mut MON: Option<Mon> = None;
@@ -177,10 +182,21 @@ pub fn install(cfg: Cfg, script: Script, init: [f64; NP], exp_choice: u32, powf_
         powf_missing: false,
         first_bad_call: usize::MAX,
         reliable: true,
+        draws_n: 0,
+        draws: [0.; MAXC],
     };
     unsafe {
         MON = Some(m);
     }
+}
+
+#[cfg(not(kani))]
+fn native_exp(x: f64) -> f64 {
+    x.exp()
+}
+#[cfg(kani)]
+fn native_exp(_x: f64) -> f64 {
+    0.
 }
 
 fn rel_close(a: f64, b: f64, tol: f64) -> bool {
@@ -276,6 +292,9 @@ impl Mon {
                     if cfg!(kani) && n_exp >= 1 {
                         let e = self.exp_ret[self.pend_exp_n];
                         accept = e >= 1.;
+                    } else if !cfg!(kani) && self.proposals >= 1 && (self.proposals as usize) <= self.draws_n {
+                        let u = self.draws[self.proposals as usize - 1];
+                        accept = u < native_exp(x_ref).min(1.);
                     } else {
                         self.reliable = false;
                     }
@@ -421,15 +440,18 @@ impl Mon {
         self.pend = true;
         self.pend_vec = v;
         self.pend_exp_n = self.exp_n;
-        if diff == 0 {
-            // same vector as the held state: a score is a function of the parameters, so the
-            // answer is the held score; accepting or rejecting it changes nothing.
+        // Proposals are answered from the script by call index, even when the proposed vector
+        // equals the held one (an adversarial, scripted score function may reject a no-op move).
+        // Calls after the last proposal the configuration asks for (the optimiser's final validity
+        // check, the harness's own observation) see the held score if they see the held vector.
+        let p_full = if self.cfg.steps == 0 { 0 } else { (self.cfg.steps / self.inner_eff) * self.inner_eff };
+        if diff == 0 && self.proposals > p_full {
             self.pend_valid = true;
             self.pend_score = self.cur;
             self.last_equal = true;
             return Some(self.cur);
         }
-        self.last_equal = false;
+        self.last_equal = diff == 0;
         self.pend_valid = (self.script.valid >> t) & 1 == 1;
         self.pend_score = self.script.score[t];
         if self.pend_valid {
